@@ -100,3 +100,18 @@ PROPS.update({
         "min_reach": {"any": ["reach:converged", "reach:exhausted-max_iter", "reach:self-loops"]},
     },
 })
+
+PROPS.update({
+    "C14": {
+        "level": "exploration",
+        "rule": "seeded graphs of all 8 kinds (permissive policies) over Unicode names (XML specials, entity look-alikes, ]]>, <!--, quotes, leading/trailing/inner spaces, empty string, Latin-1, CJK, astral emoji, combining marks, RTL, U+00A0, U+2028, random scalar values; control characters and non-characters excluded) and weights from bit-pattern classes (+-0, subnormals, min/max normal, 1e308 scale, +-inf, 17-significant-digit values at extreme magnitudes, random non-NaN bit patterns), unweighted / weighted / mixed, self-loops and parallel edges. write_graphml_string then read_graphml_string with the same specs must reproduce node names and order, directedness and the edge multiset with bit-identical weights; every 4th case also writes a file, compares its bytes with the string variant and reads it back. Non-trivial = graph has >=1 edge; distinct = distinct (kind, names, edges) hashes.",
+        "assumptions": COMMON + ["files are written to a per-process directory under /verif/.work and removed"],
+        "min_reach": {"any": ["reach:xml-special-characters-in-names", "reach:non-ascii-names", "reach:extreme-magnitude-weights", "reach:infinite-weights", "reach:file-variant"]},
+    },
+    "C19": {
+        "level": "fault_enumeration",
+        "rule": "(a) grammar-generated GraphML documents, half of them hostile (keys without for/id, duplicated attributes, unknown entities, non-numeric / escaped / CDATA / padded weight text, data before, after and outside edges, nested elements inside data, empty <graph/>, several graphs, missing attributes, trailing garbage); (b) fault enumeration: for each well-formed base document of 150-700 bytes EVERY prefix truncation, EVERY single-byte deletion, EVERY single-byte duplication, one bit flip per byte (kept if still UTF-8), every tag deletion and duplication; (c) hand-picked hostile fragments and 10^3..10^5-deep nesting. Each document is read under 6 GraphSpecs with catch_unwind, a logical step budget of len+16 event-loop iterations (verif-hooks tick) and abort attribution; Ok(graph) is compared with an independent scan of the same text (own quick-xml event loop) replayed on the reference Model. Non-trivial = every document; distinct = distinct base documents / fragments (variants are counted in fault-variants).",
+        "assumptions": COMMON + ["the quick-xml tokenizer is shared with graphrs and trusted", "content is only compared where the statement fixes the meaning: documents the tokenizer rejects, unreadable attributes, several graph elements and misplaced / CDATA / late-declared weight data are checked for totality (and node/edge identity where possible) only", "the fault space enumerated per base document is complete for truncation, byte deletion and byte duplication; bit flips are one seeded bit per byte"],
+        "min_reach": {"any": ["fault-bases-fully-enumerated", "fault-variants", "outcome:ok", "outcome:err", "content-compared:graph-matches-document"]},
+    },
+})
